@@ -1,6 +1,11 @@
+import os
 SV = ['src/pop/stateless_validation.cpp', 'src/pop/read_stream.cpp', 'src/pop/validation_state.cpp']
 SPLIT_OBL = ['containsSplit: no out-of-bounds/use-after-free/abort/throw and termination for every transaction of the stated length, all bytes symbolic',
              'containsSplit never reports an 80-byte payload inside a transaction shorter than 80 bytes']
+import importlib.util as _ilu
+_sp = _ilu.spec_from_file_location('c11spec', os.path.join(os.path.dirname(os.path.abspath(__file__)), '..', 'C11', 'spec.py'))
+_c11 = _ilu.module_from_spec(_sp)
+_sp.loader.exec_module(_c11)
 HARNESSES = [
     {'name': 'h_split_short', 'src': 'C06/h_split.cpp', 'entry': 'h_split', 'repo_srcs': SV, 'covers': [1], 'obligations': SPLIT_OBL,
      'rungs': {'quick': [{'defines': ['TXMIN=0', 'TXLEN=5'], 'bound': 'tx length 0..5 (symbolic), all bytes symbolic', 'timeout': 100}]}},
@@ -11,3 +16,5 @@ HARNESSES = [
 ]
 EXPLANATION = 'Real decoders/validators are executed symbolically over arbitrary byte strings up to the stated length; every memory access is bounds-checked by the engine.'
 ASSUMPTIONS = []
+# the byte-first decoder explorations are shared with C11 (same harness source; C06 relies on the engine's built-in memory-safety / abort / throw obligations)
+HARNESSES += [h for h in _c11.HARNESSES if h['name'] not in ('h_serde_be', 'h_serde_fixed')]
